@@ -19,6 +19,12 @@ trivia-insertion clause of the property are tested on the implementation only.
 -/
 namespace TrustVerif.C12
 
+/-- The iterator `Lexer::next` with its pending queue (`lexNext`, drained by `lexAll`) computes the
+list function `postpass` about which the lexer theorems below are stated. -/
+theorem c12_lexer_iterator (L : Lang) (src : List Nat) (raw : List Tok) :
+    lexAll L src raw = postpass L src raw :=
+  lexAll_eq L src raw
+
 /-- **Token ranges are contiguous and non-overlapping (lexer post-pass).**  If the raw logos spans
 tile `[a, b)` (contiguous, no empty span), so do the final token ranges after the split of
 `IntLiteral`s that end in `.` — for every raw stream, every text and every kind numbering. -/
@@ -54,33 +60,54 @@ theorem c12_sink_lossless_events (L : Lang) (src : List Nat) (toks : List Tok) (
   simp [consumesAll] at h3
   exact sink_lossless_core L src toks events hT hB h1.1 h1.2 (fpOk_sound _ h2) h3
 
+/-- **Sink, token level.**  If in addition (E4) every `Token` event carries the syntax kind of the
+token it makes the sink consume, the leaves of the tree are exactly the lexer's tokens, in order,
+with the lexer's kinds and texts — nothing dropped, duplicated, reordered or re-labelled. -/
+theorem c12_sink_tokens_events (L : Lang) (src : List Nat) (toks : List Tok) (events : List Event)
+    (hT : tiles toks 0 src.length = true) (hB : onBoundaries src toks = true)
+    (h1 : eventsBalanced events = true) (h2 : fpOk events = true)
+    (h3 : consumesAll L toks events = true) (h4 : kindsAgree L toks events = true) :
+    ∃ k cs, sink L src toks events = .ok (Tree.node k cs) ∧
+      (Tree.node k cs).leaves = lexLeaves L src toks := by
+  simp [eventsBalanced] at h1
+  simp [consumesAll] at h3
+  obtain ⟨k, cs, r1, _, r3⟩ := sink_leaves_core L src toks events hT hB h1.1 h1.2 (fpOk_sound _ h2) h3 h4
+  exact ⟨k, cs, r1, r3⟩
+
 /-- **Marker discipline ⇒ premises.**  Whatever the grammar does — any sequence of `start`,
 `complete`, `precede`, `bump`, `start_node`, `finish_node`, `error` in which every `Marker` is
 completed exactly once, `precede` is applied to completed markers only, and inner
 `start_node`/`finish_node` calls are paired — `Parser::parse` runs without panic (no index out of
-bounds and no endless loop in `set_forward_parent`), and its event stream satisfies E1 and E2; if
-the lexer emitted no `Eof`-kind token and the parser stopped at the end of input (`at_end()`, the
-exit condition of the loop in `Parser::parse`), also E3. -/
+bounds and no endless loop in `set_forward_parent`), and its event stream satisfies E1, E2 and E4
+(`bump` labels its `Token` event with the kind of the token the sink will consume: the two cursors
+stay in step); if the lexer emitted no `Eof`-kind token and the parser stopped at the end of input
+(`at_end()`, the exit condition of the loop in `Parser::parse`), also E3. -/
 theorem c12_parser_events_ok (L : Lang) (toks : List Tok) (root : Nat) (body : List POp)
     (hD : Disciplined body) :
     ∃ s, run L (PState.init toks) (parseOps root body) = .ok s ∧
-      eventsBalanced s.events = true ∧ fpOk s.events = true ∧
+      eventsBalanced s.events = true ∧ fpOk s.events = true ∧ kindsAgree L toks s.events = true ∧
       (noEof L toks = true → atEnd L s = true → consumesAll L toks s.events = true) := by
-  obtain ⟨s, h1, h2, h3, h4, _⟩ := parser_events_ok_core L toks root body hD
-  exact ⟨s, h1, h2, h3, h4⟩
+  obtain ⟨s, h1, h2, h3, h4, _, h6⟩ := parser_events_ok_core L toks root body hD
+  exact ⟨s, h1, h2, h3, h6, h4⟩
 
 /-- **Parser infrastructure + sink: the text of the syntax tree equals the input byte for byte.**
 For every text, every tiling token list on character boundaries without `Eof` tokens and every
 disciplined sequence of parser operations that ends at the end of input, `parse` (events, then
-`Sink::finish`, then rowan's `finish`) terminates without panic and `text(tree) = source`. -/
+`Sink::finish`, then rowan's `finish`) terminates without panic, `text(tree) = source`, and the
+leaves of the tree are exactly the lexer's tokens (kind and text), in order. -/
 theorem c12_sink_lossless (L : Lang) (src : List Nat) (toks : List Tok) (root : Nat) (body : List POp)
     (hT : tiles toks 0 src.length = true) (hB : onBoundaries src toks = true)
     (hE : noEof L toks = true) (hD : Disciplined body) :
     ∃ s, run L (PState.init toks) (parseOps root body) = .ok s ∧
       (atEnd L s = true →
-        ∃ k cs, sink L src toks s.events = .ok (Tree.node k cs) ∧ (Tree.node k cs).text = src) := by
-  obtain ⟨s, h1, h2, h3, h4⟩ := c12_parser_events_ok L toks root body hD
-  exact ⟨s, h1, fun hat => c12_sink_lossless_events L src toks s.events hT hB h2 h3 (h4 hE hat)⟩
+        ∃ k cs, sink L src toks s.events = .ok (Tree.node k cs) ∧ (Tree.node k cs).text = src ∧
+          (Tree.node k cs).leaves = lexLeaves L src toks) := by
+  obtain ⟨s, h1, h2, h3, h4, h5⟩ := c12_parser_events_ok L toks root body hD
+  refine ⟨s, h1, fun hat => ?_⟩
+  simp [eventsBalanced] at h2
+  have h6 := h5 hE hat
+  simp [consumesAll] at h6
+  exact sink_leaves_core L src toks s.events hT hB h2.1 h2.2 (fpOk_sound _ h3) h6 h4
 
 /-- **Every reported error range lies inside the text.**  `Parser::error` records the range of the
 next significant token or the empty range at 0; in every disciplined run each recorded range
@@ -90,7 +117,7 @@ theorem c12_errors_in_bounds (L : Lang) (src : List Nat) (toks : List Tok) (root
     ∃ s, run L (PState.init toks) (parseOps root body) = .ok s ∧
       ∀ e ∈ s.errors, e.1 ≤ e.2 ∧ e.2 ≤ src.length ∧
         (e = (0, 0) ∨ ∃ t ∈ toks, L.isTrivia t.kind = false ∧ e = (t.lo, t.hi)) := by
-  obtain ⟨s, h1, _, _, _, h5⟩ := parser_events_ok_core L toks root body hD
+  obtain ⟨s, h1, _, _, _, h5, _⟩ := parser_events_ok_core L toks root body hD
   refine ⟨s, h1, ?_⟩
   intro e he
   rcases h5 e he with h | ⟨t, ht, htr, h⟩
@@ -119,8 +146,9 @@ example :
 /-- `a + b` with surrounding blanks, parsed the way `parse_expr_bp` does it: `start`, `bump`,
 `complete` (NameRef), `precede` (forward parent), `bump`, nested NameRef, `complete` (BinaryExpr).
 The run is disciplined, ends at the end of input, its event stream contains a forward parent and
-meets E1–E3, and the sink rebuilds the text: all hypotheses of `c12_parser_events_ok`,
-`c12_sink_lossless_events`, `c12_sink_lossless` and `c12_errors_in_bounds` are satisfiable together. -/
+meets E1–E4, and the sink rebuilds the text: all hypotheses of `c12_parser_events_ok`,
+`c12_sink_lossless_events`, `c12_sink_tokens_events`, `c12_sink_lossless` and `c12_errors_in_bounds`
+are satisfiable together. -/
 example :
     let src := [32, 97, 32, 43, 32, 98, 32]
     let toks : List Tok := [⟨0, 0, 1⟩, ⟨1, 1, 2⟩, ⟨0, 2, 3⟩, ⟨2, 3, 4⟩, ⟨0, 4, 5⟩, ⟨1, 5, 6⟩, ⟨0, 6, 7⟩]
@@ -134,8 +162,10 @@ example :
       run exL (PState.init toks) (parseOps 40 body) = .ok ⟨events, [⟨0, 6, 7⟩], [(0, 0)]⟩ ∧
       atEnd exL ⟨events, [⟨0, 6, 7⟩], [(0, 0)]⟩ = true ∧
       eventsBalanced events = true ∧ fpOk events = true ∧ consumesAll exL toks events = true ∧
+      kindsAgree exL toks events = true ∧
       sinkText exL src toks events = .ok src := by
-  refine ⟨by decide, by decide, by decide, by decide, rfl, by decide, by decide, by decide, by decide, by decide⟩
+  refine ⟨by decide, by decide, by decide, by decide, rfl, by decide, by decide, by decide, by decide,
+    by decide, by decide⟩
 
 /-- Sharpness of E1: one `Finish` too many makes rowan's `finish_node` pop an empty stack — the
 model's `panic` outcome is reachable, so the sink theorem is not vacuous about it. -/
@@ -152,6 +182,12 @@ example :
 /-- Sharpness of E3: if the parser stops before the end of input the tail of the text is missing. -/
 example :
     sinkText exL [97, 98] [⟨1, 0, 1⟩, ⟨1, 1, 2⟩] [.start 40 none, .token 1 1, .finish] = .ok [97] := by
+  decide
+
+/-- Sharpness of E4: a `Token` event with a foreign kind re-labels the token it consumes (what a
+parser whose cursor ran ahead of the sink's would do); `kindsAgree` rejects the stream. -/
+example :
+    kindsAgree exL [⟨1, 0, 1⟩, ⟨2, 1, 2⟩] [.start 40 none, .token 1 1, .token 1 1, .finish] = false := by
   decide
 
 /-- Sharpness of the discipline: a `Marker` that is never completed (what the `DropBomb` turns into
